@@ -195,3 +195,69 @@ def canary(item):
     o["kind"] = "canary"
     o["verdict"] = "CANARY_OK" if o["verdict"] == "REFUTED" else "CANARY_PASSED_VACUOUS"
     return [o]
+
+
+def roundtrip_inverse(item):
+    """encode_base58(decode_base58(s)) = s for every non-empty string s over the alphabet, from the two function
+    contracts, lemma L2 (chars58(val58(u)) = u for u without a leading '1') and L3, and the byte-level B-axioms"""
+    import pyvc.models as M
+    from pyvc.logic import FactSink
+    out = []
+    if M._minbe is None:
+        FactSink.current = FactSink()
+        M.minbe(z3.IntVal(0))
+    t = Table.of(A58)
+    s, u, r, e2, body = [z3.Const(x, ISeq) for x in ("s", "u", "r", "e2", "body")]
+    p, pad, V, lz = z3.Ints("p pad V lz")
+    Z0, O1 = z3.IntVal(0), z3.IntVal(ONE)
+    # decomposition of s into leading '1's and the rest
+    decomp = [p >= 0, s == z3.Concat(_rep(O1, p), u), z3.Length(_rep(O1, p)) == p, z3.Length(_rep(Z0, p)) == p, z3.Length(s) >= 1, allin(s),
+              z3.Or(z3.Length(u) == 0, u[0] != ONE), allin(u)]
+    # lemmas L2/L3 instantiated
+    lem = [val58(s) == val58(u), V == val58(s), z3.Implies(z3.Length(u) > 0, z3.And(chars58(V) == u, V > 0)),
+           z3.Implies(z3.Length(u) == 0, V == 0), chars58(Z0) == z3.Empty(ISeq)]
+    # decode contract
+    n = z3.Length(body)
+    dec = [body == z3.SubSeq(s, 0, z3.Length(s) - 1), r == z3.Concat(_rep(Z0, pad), M._minbe(V)), pad >= 0, pad <= n,
+           z3.SubSeq(body, 0, pad) == _rep(O1, pad), z3.Or(pad == n, body[pad] != ONE), z3.Length(_rep(O1, pad)) == pad, z3.Length(_rep(Z0, pad)) == pad]
+    # B-axioms about minbe / BE
+    bax = [z3.Implies(V > 0, z3.And(M._minbe(V)[0] != 0, z3.Length(M._minbe(V)) >= 1, be(M._minbe(V)) == V)), M._minbe(Z0) == z3.Unit(Z0),
+           be(r) == be(M._minbe(V)), be(z3.Unit(Z0)) == 0]
+    # encode contract on r: '1'^lz ++ chars58(be(r)) with lz = leading zero bytes of r
+    enc = [e2 == z3.Concat(_rep(O1, lz), chars58(be(r))), lz >= 0, lz <= z3.Length(r), z3.SubSeq(r, 0, lz) == _rep(Z0, lz),
+           z3.Or(lz == z3.Length(r), r[lz] != 0), z3.Length(_rep(Z0, lz)) == lz, z3.Length(_rep(O1, lz)) == lz]
+    elem = [z3.Implies(z3.And(pad >= 0, pad < p), _rep(O1, p)[pad] == ONE), z3.Implies(z3.And(p >= 0, p < pad), _rep(O1, pad)[p] == ONE),
+            z3.Implies(z3.And(lz >= 0, lz < pad), _rep(Z0, pad)[lz] == 0), z3.Implies(z3.And(pad >= 0, pad < lz), _rep(Z0, lz)[pad] == 0)]
+    # element-wise consequences of sequence theory, each discharged on its own first, then used as hints
+    mb = M._minbe(V)
+    hints = [z3.Implies(z3.And(lz >= 0, lz < pad), r[lz] == _rep(Z0, pad)[lz]),
+             z3.Implies(z3.Length(mb) >= 1, r[pad] == mb[0]),
+             z3.Implies(z3.And(pad >= 0, pad < lz, lz <= z3.Length(r)), z3.SubSeq(r, 0, lz)[pad] == r[pad]),
+             z3.Length(r) == pad + z3.Length(mb)]
+    basic = [r == z3.Concat(_rep(Z0, pad), mb), z3.Length(_rep(Z0, pad)) == pad, pad >= 0]
+    for k, h in enumerate(hints):
+        out.append(prove(f"C10.lemma.inverse.hint[{k}]", h, hyps=basic, timeout_ms=60000, statement="element-wise fact of concatenation / extraction used as a hint"))
+    hints2 = [z3.Length(s) == p + z3.Length(u), z3.Length(body) == z3.Length(s) - 1,
+              z3.Implies(z3.And(pad >= 0, pad < p, pad < z3.Length(body)), body[pad] == _rep(O1, p)[pad]),
+              z3.Implies(z3.And(z3.Length(u) >= 2), body[p] == u[0]),
+              z3.Implies(z3.And(p >= 0, p < pad, pad <= z3.Length(body)), z3.SubSeq(body, 0, pad)[p] == body[p])]
+    basic2 = [s == z3.Concat(_rep(O1, p), u), z3.Length(_rep(O1, p)) == p, p >= 0, z3.Length(s) >= 1, body == z3.SubSeq(s, 0, z3.Length(s) - 1)]
+    for k, h in enumerate(hints2):
+        out.append(prove(f"C10.lemma.inverse.hint2[{k}]", h, hyps=basic2, timeout_ms=60000, statement="element-wise fact of concatenation / extraction used as a hint"))
+    hyps = decomp + lem + dec + bax + enc + elem + hints + hints2
+    out.append(prove("C10.lemma.inverse.pad_equals_ones.nonempty_rest", z3.Implies(z3.Length(u) > 0, pad == p), hyps=hyps, timeout_ms=60000,
+                     statement="s has a character other than '1': the decoder's pad count equals the number of leading '1's"))
+    out.append(prove("C10.lemma.inverse.lz_equals_pad.nonempty_rest", z3.Implies(z3.And(z3.Length(u) > 0, pad == p), lz == pad), hyps=hyps, timeout_ms=60000,
+                     statement="... and the encoder's zero count on the decoded bytes equals that pad count (minbe(V) starts with a non-zero byte)"))
+    out.append(prove("C10.lemma.inverse.nonempty_rest", z3.Implies(z3.And(z3.Length(u) > 0, pad == p, lz == pad), e2 == s), hyps=hyps, timeout_ms=60000,
+                     statement="s has a character other than '1': encode(decode(s)) = s"))
+    rep_succ = [z3.Implies(p >= 1, z3.And(_rep(O1, p) == z3.Concat(_rep(O1, p - 1), z3.Unit(O1)), _rep(Z0, p) == z3.Concat(_rep(Z0, p - 1), z3.Unit(Z0)),
+                                           z3.Length(_rep(O1, p - 1)) == p - 1, z3.Length(_rep(Z0, p - 1)) == p - 1))]
+    elemB = [z3.Implies(z3.And(pad >= 0, pad < p - 1), _rep(O1, p - 1)[pad] == ONE), z3.Implies(z3.And(lz >= 0, lz < p), _rep(Z0, p)[lz] == 0)]
+    out.append(prove("C10.lemma.inverse.all_ones.pad", z3.Implies(z3.Length(u) == 0, pad == p - 1), hyps=hyps + rep_succ + elemB, timeout_ms=60000,
+                     statement="s = '1'^p: the pad count over s[:-1] is p - 1"))
+    out.append(prove("C10.lemma.inverse.all_ones.decoded", z3.Implies(z3.And(z3.Length(u) == 0, pad == p - 1), r == _rep(Z0, p)), hyps=hyps + rep_succ + elemB, timeout_ms=60000,
+                     statement="s = '1'^p decodes to p zero bytes"))
+    out.append(prove("C10.lemma.inverse.all_ones", z3.Implies(z3.And(z3.Length(u) == 0, r == _rep(Z0, p), lz == p, be(r) == 0), e2 == s), hyps=hyps + rep_succ + elemB,
+                     timeout_ms=60000, statement="p zero bytes encode to '1'^p = s"))
+    return out
